@@ -22,6 +22,7 @@ import (
 	_ "github.com/mutagen-io/mutagen/pkg/forwarding/protocols/docker"
 	_ "github.com/mutagen-io/mutagen/pkg/forwarding/protocols/ssh"
 	"github.com/mutagen-io/mutagen/pkg/logging"
+	"github.com/mutagen-io/mutagen/pkg/prompting"
 	"github.com/mutagen-io/mutagen/pkg/synchronization"
 	_ "github.com/mutagen-io/mutagen/pkg/synchronization/protocols/docker"
 	_ "github.com/mutagen-io/mutagen/pkg/synchronization/protocols/ssh"
@@ -51,6 +52,17 @@ const fakeRecord = `#!/bin/sh
 // as far as it can without an agent bundle) and otherwise behaves like a
 // remote shell that does not have the agent installed (exit 127).
 const fakeSSHTail = `for a in "$@"; do last="$a"; done
+if [ "$VERIF_FAKE_PLATFORM" = windows ]; then
+  # A cmd.exe remote: POSIX-style invocations are "not recognized", the
+  # backslash form reports a missing path (agent not installed), uname does not
+  # exist and "cmd.exe /c set" dumps the environment.
+  case "$last" in
+    cmd.exe*) printf 'OS=Windows_NT\r\nPROCESSOR_ARCHITECTURE=AMD64\r\n'; exit 0;;
+    uname*) echo "'uname' is not recognized as an internal or external command" >&2; exit 1;;
+    *\\*) echo "The system cannot find the path specified." >&2; exit 1;;
+  esac
+  echo "'x' is not recognized as an internal or external command" >&2; exit 1
+fi
 case "$last" in
   uname*) echo "Linux x86_64"; exit 0;;
 esac
@@ -61,29 +73,47 @@ const fakeSCPTail = `exit 0
 `
 
 // The fake docker answers the container probes of the Docker transport
-// (env / id -un / id -gn / uname) and accepts cp and chown.
+// (env / id -un / id -gn / uname, or "cmd /c set" for a Windows container) and
+// accepts cp, chown, stop and start.
 const fakeDockerTail = `user=root; mode=none; prev=
 for a in "$@"; do
   if [ "$prev" = "--user" ]; then user="$a"; fi
   case "$a" in
     env) [ "$mode" = none ] && mode=env;;
+    set) [ "$mode" = none ] && mode=set;;
     -un) mode=un;;
     -gn) mode=gn;;
     uname) mode=uname;;
     cp) [ "$mode" = none ] && mode=cp;;
+    stop) [ "$mode" = none ] && mode=stop;;
+    start) [ "$mode" = none ] && mode=start;;
     chown) mode=chown;;
   esac
   prev="$a"
 done
+if [ "$VERIF_FAKE_PLATFORM" = windows ]; then
+  case "$mode" in
+    env|un|gn|uname|chown) echo "executable file not found" >&2; exit 1;;
+    set) printf 'OS=Windows_NT\r\nPROCESSOR_ARCHITECTURE=AMD64\r\nUSERPROFILE=C:\\Users\\agent\r\n'; exit 0;;
+    cp|stop|start) exit 0;;
+  esac
+  exit 127
+fi
 case "$mode" in
   env) echo "HOME=/home/agent"; exit 0;;
   un) echo "$user"; exit 0;;
   gn) echo "grp"; exit 0;;
   uname) echo "Linux x86_64"; exit 0;;
-  cp|chown) exit 0;;
+  cp|chown|stop|start) exit 0;;
 esac
 exit 127
 `
+
+// yesPrompter confirms the Windows-container copy prompt.
+type yesPrompter struct{}
+
+func (yesPrompter) Message(string) error          { return nil }
+func (yesPrompter) Prompt(string) (string, error) { return "yes", nil }
 
 type invocation struct {
 	Tool string
@@ -253,6 +283,10 @@ type c36case struct {
 	Host   string // host or container
 	Port   string // "" = none
 	Op     string // "connect", "command", "copy"
+	// Platform is what the fakes pretend the remote / container to be: "posix"
+	// or "windows" (cmd.exe remote, Windows container: second probe hypothesis,
+	// docker stop/cp/start copy sequence).
+	Platform string
 }
 
 func (c c36case) raw() string {
@@ -287,21 +321,25 @@ type c36env struct {
 	logger  *logging.Logger
 	local   string // an absolute local file for Copy
 	refs    map[string][]invocation
+	// prompter answers the Windows-container copy confirmation.
+	prompter string
+	memoise  bool
+	memo     map[string]opResult
 }
 
 // reference returns the commands executed for the neutral-component variant
 // of u (same kind, protocol, presence of a user, port, path), run once per
 // shape and cached.
-func (e *c36env) reference(u *url.URL, op string) []invocation {
+func (e *c36env) reference(u *url.URL, op, platform string) []invocation {
 	base := &url.URL{Kind: u.Kind, Protocol: u.Protocol, Host: "hst0", Port: u.Port, Path: u.Path, Environment: u.Environment, Parameters: u.Parameters}
 	if u.User != "" {
 		base.User = "usr0"
 	}
-	key := fmt.Sprintf("%v|%v|%s|%d|%s|%s", base.Kind, base.Protocol, base.User, base.Port, base.Path, op)
+	key := fmt.Sprintf("%v|%v|%s|%d|%s|%s|%s", base.Kind, base.Protocol, base.User, base.Port, base.Path, op, platform)
 	if ref, ok := e.refs[key]; ok {
 		return ref
 	}
-	ref, _ := e.runOp(base, op)
+	ref, _ := e.runOp(base, op, platform)
 	if e.refs == nil {
 		e.refs = map[string][]invocation{}
 	}
@@ -309,17 +347,54 @@ func (e *c36env) reference(u *url.URL, op string) []invocation {
 	return ref
 }
 
+// opResult is what one operation executed and returned.
+type opResult struct {
+	invs []invocation
+	err  error
+}
+
+// runOpMemo is runOp with identical calls executed only once: the same URL
+// reached as text and as a message, and - for Copy and Command, whose inputs
+// are only user, host/container, port, environment and parameters - the same
+// transport call reached from a synchronization and from a forwarding URL.
+// Re-runs of a violation never go through this table (memoise is switched off).
+func (e *c36env) runOpMemo(u *url.URL, op, platform string) ([]invocation, error) {
+	if !e.memoise {
+		return e.runOp(u, op, platform)
+	}
+	key := fmt.Sprintf("%v|%q|%q|%d|%s|%s|%v|%v", u.Protocol, u.User, u.Host, u.Port, op, platform, u.Environment, u.Parameters)
+	if op == "connect" {
+		key += fmt.Sprintf("|%v|%q", u.Kind, u.Path)
+	}
+	if res, ok := e.memo[key]; ok {
+		return res.invs, res.err
+	}
+	invs, err := e.runOp(u, op, platform)
+	if e.memo == nil {
+		e.memo = map[string]opResult{}
+	}
+	e.memo[key] = opResult{invs, err}
+	return invs, err
+}
+
 // runOp executes one operation for an (already validated) URL and returns what
 // the fakes recorded.
-func (e *c36env) runOp(u *url.URL, op string) ([]invocation, error) {
+func (e *c36env) runOp(u *url.URL, op, platform string) ([]invocation, error) {
 	os.Remove(e.logPath)
+	os.Setenv("VERIF_FAKE_PLATFORM", platform)
 	var err error
+	// Copying into a Windows container asks for confirmation, so those runs
+	// get a prompter that says yes; everything else runs without one.
+	prompter := ""
+	if platform == "windows" && u.Protocol == url.Protocol_Docker {
+		prompter = e.prompter
+	}
 	newTransport := func() (agent.Transport, error) {
 		// Exactly the calls made by the protocol handlers.
 		if u.Protocol == url.Protocol_SSH {
-			return sshtransport.NewTransport(u.User, u.Host, uint16(u.Port), "")
+			return sshtransport.NewTransport(u.User, u.Host, uint16(u.Port), prompter)
 		}
-		return dockertransport.NewTransport(u.Host, u.User, u.Environment, u.Parameters, "")
+		return dockertransport.NewTransport(u.Host, u.User, u.Environment, u.Parameters, prompter)
 	}
 	switch op {
 	case "connect":
@@ -327,14 +402,14 @@ func (e *c36env) runOp(u *url.URL, op string) ([]invocation, error) {
 		if u.Kind == url.Kind_Synchronization {
 			h := synchronization.ProtocolHandlers[u.Protocol]
 			var ep synchronization.Endpoint
-			ep, err = h.Connect(ctx, e.logger, u, "", "sync_session", synchronization.DefaultVersion, &synchronization.Configuration{}, true)
+			ep, err = h.Connect(ctx, e.logger, u, prompter, "sync_session", synchronization.DefaultVersion, &synchronization.Configuration{}, true)
 			if ep != nil {
 				ep.Shutdown()
 			}
 		} else {
 			h := forwarding.ProtocolHandlers[u.Protocol]
 			var ep forwarding.Endpoint
-			ep, err = h.Connect(ctx, e.logger, u, "", "fwrd_session", forwarding.DefaultVersion, &forwarding.Configuration{}, true)
+			ep, err = h.Connect(ctx, e.logger, u, prompter, "fwrd_session", forwarding.DefaultVersion, &forwarding.Configuration{}, true)
 			if ep != nil {
 				ep.Shutdown()
 			}
@@ -374,8 +449,9 @@ func (e *c36env) c36check(c c36case, verbose bool) (finds []c36finding, class st
 	kind := kindOf(c.Kind)
 	optionLike := func(s string) bool { return strings.HasPrefix(s, "-") }
 	// Non-trivial: the case offers an option-like user, host or container
-	// (directly, or behind a character that a transport might strip).
-	nontrivial = optionLike(c.User) || optionLike(c.Host) || strings.Contains(c.User+"|"+c.Host, " -") || strings.Contains(c.Host, "[-")
+	// (directly, or behind something that trimming, unwrapping or lexical path
+	// cleaning would remove).
+	nontrivial = optionLike(c.User) || optionLike(c.Host) || strings.Contains(c.User+"|"+c.Host, " -") || strings.Contains(c.Host, "[-") || strings.Contains(c.User+"|"+c.Host, "/-")
 	wantProto := url.Protocol_SSH
 	if c.Proto == "docker" {
 		wantProto = url.Protocol_Docker
@@ -410,8 +486,12 @@ func (e *c36env) c36check(c c36case, verbose bool) (finds []c36finding, class st
 	}
 	// Reference run: the same URL with neutral components. Arguments that
 	// differ between the two runs are the URL-derived ones.
-	got, opErr := e.runOp(u, c.Op)
-	ref := e.reference(u, c.Op)
+	platform := c.Platform
+	if platform == "" {
+		platform = "posix"
+	}
+	got, opErr := e.runOpMemo(u, c.Op, platform)
+	ref := e.reference(u, c.Op, platform)
 	if verbose {
 		e.t.Logf("url %q -> user %q host %q port %d; op %s error: %v", c.raw(), u.User, u.Host, u.Port, c.Op, opErr)
 		for _, inv := range got {
@@ -501,6 +581,12 @@ func TestC36(t *testing.T) {
 	defer r.Finish()
 	applyEnv(map[string]string{})
 	e := &c36env{t: t, logPath: fakeBin(t), logger: logging.NewLogger(logging.LevelDisabled, io.Discard)}
+	if id, err := prompting.RegisterPrompter(yesPrompter{}); err != nil {
+		t.Fatalf("INFRA: %v", err)
+	} else {
+		e.prompter = id
+		defer prompting.UnregisterPrompter(id)
+	}
 	e.local = filepath.Join(t.TempDir(), "agent-binary")
 	if err := os.WriteFile(e.local, []byte("x"), 0o700); err != nil {
 		t.Fatalf("INFRA: %v", err)
@@ -526,11 +612,11 @@ func TestC36(t *testing.T) {
 		return
 	}
 
-	users := []string{"", "Qu", "-Qu", "-oProxyCommand=Qu", "--Qu", "Q-u", "-", " -Qu"}
-	hosts := []string{"Qh", "-Qh", "-oProxyCommand=Qh", "--Qh", "Q-h", "-", "--", "[-Qh]", " -Qh"}
+	users := []string{"", "Qu", "-Qu", "-oProxyCommand=Qu", "--Qu", "Q-u", "-", " -Qu", "./-Qu"}
+	hosts := []string{"Qh", "-Qh", "-oProxyCommand=Qh", "--Qh", "Q-h", "-", "--", "[-Qh]", " -Qh", "./-Qh", "a/../-Qh", ".//-Qh"}
 	if vr.Thorough() {
 		users = append(users, "-l", "-4", "--", "+Qu", "−Qu", "-o", "-F", "-vvv")
-		hosts = append(hosts, "-l", "-4", "+Qh", "−Qh", "-o", "-F", "-vvv", "-i", "--help", "--user")
+		hosts = append(hosts, "-l", "-4", "+Qh", "−Qh", "-o", "-F", "-vvv", "-i", "--help", "--user", "./--Qh", "../-Qh", "./", "-Qh/.", "Qh/../../-Qh", "\t-Qh", "\"-Qh\"")
 	}
 	ports := []string{"", "22"}
 	// Connect drives Transport.Command with the real agent command line; the
@@ -540,13 +626,15 @@ func TestC36(t *testing.T) {
 	if vr.Thorough() {
 		ops = []string{"connect", "command", "copy"}
 	}
-	r.Rule(fmt.Sprintf("source {URL text through url.Parse + EnsureValid, URL message through EnsureValid only} x every URL [user@]host:[port:]tail and docker://[user@]container{/p,:tcp:...} with user in %d values, host/container in %d values (plain, leading '-', '-oProxyCommand=..', leading '--', inner dash, lone '-', '--', option text behind '[' or a space), port {none,22}, kind {sync,fwd} x operation {protocol handler Connect, transport Copy; thorough adds transport Command with an arbitrary command}; each accepted URL is executed against recording fakes together with a neutral-component reference run, URL-derived arguments = those that differ from the reference; non-trivial = the offered user/host/container starts with '-' (or has option text behind '[' / a space), distinct by (source,proto,kind,user,host,port,op)", len(users), len(hosts)))
+	r.Rule(fmt.Sprintf("source {URL text through url.Parse + EnsureValid, URL message through EnsureValid only} x every URL [user@]host:[port:]tail and docker://[user@]container{/p,:tcp:...} with user in %d values, host/container in %d values (plain, leading '-', '-oProxyCommand=..', leading '--', inner dash, lone '-', '--', option text behind '[' or a space, names that only become option-like after lexical path cleaning such as './-v', 'a/../-v', './/-v'), port {none,22}, kind {sync,fwd} x remote platform {posix; windows for docker, and for ssh in thorough} x operation {protocol handler Connect, transport Copy; thorough adds transport Command with an arbitrary command}; each accepted URL is executed against recording fakes together with a neutral-component reference run, URL-derived arguments = those that differ from the reference; non-trivial = the offered user/host/container starts with '-' (or has option text behind '[' / a space), distinct by (source,proto,kind,user,host,port,op,platform)", len(users), len(hosts)))
 	r.Assume("option recognition modelled after getopt/pflag as stated in classify(): options are recognised after operands for scp and docker cp/stop/start (permuting parsers); a parser that stops at the first operand would not treat scp's destination as an option",
+		"identical calls are executed once (the same URL offered as text and as a message; Copy/Command do not take the URL kind or path)",
 		"the agent bundle is absent, so the dialing logic stops after the platform probe; Copy is therefore driven directly on a transport built with the handler's own NewTransport call",
-		"Windows containers / cmd.exe remotes (second probe hypothesis) are not simulated",
+		"a Windows container is simulated for docker in both tiers (probe falls back to 'cmd /c set'; Copy runs docker stop / cp / start after a prompter says yes), a cmd.exe remote for ssh only in thorough (ssh/scp argument vectors do not depend on the remote platform)",
 		"Docker URL parameters and DOCKER_* environment values are not option-injection vectors examined here (they are passed as separate option arguments / environment)")
 
 	rejectedOptionLike, acceptedOptionLike := 0, 0
+	e.memoise = true
 	for _, source := range []string{"text", "message"} {
 		for _, proto := range []string{"ssh", "docker"} {
 			for _, kind := range []string{"sync", "fwd"} {
@@ -557,20 +645,30 @@ func TestC36(t *testing.T) {
 								continue
 							}
 							for _, op := range ops {
-								c := c36case{source, proto, kind, user, host, port, op}
-								finds, class, nt := e.c36check(c, false)
-								r.Case(vr.J(c), nt)
-								r.Outcome(class)
-								if nt && strings.HasPrefix(class, "rejected") {
-									rejectedOptionLike++
-								} else if nt {
-									acceptedOptionLike++
-								}
-								for _, f := range finds {
-									f := f
-									r.Violate(c36key(c, f),
-										fmt.Sprintf("URL %q (presented as %s) is accepted; %s (%s) runs %q where argument %d (%q, carrying the %s) is an %s", c.raw(), c.Source, f.Tool, c.Op, f.Argv, f.Index, f.Argv[f.Index], f.Component, f.Role),
-										c, func() bool { again, _, _ := e.c36check(c, false); return len(again) > 0 })
+								for _, platform := range []string{"posix", "windows"} {
+									if platform == "windows" && proto == "ssh" && !vr.Thorough() {
+										continue
+									}
+									c := c36case{source, proto, kind, user, host, port, op, platform}
+									finds, class, nt := e.c36check(c, false)
+									r.Case(vr.J(c), nt)
+									r.Outcome(class)
+									if nt && strings.HasPrefix(class, "rejected") {
+										rejectedOptionLike++
+									} else if nt {
+										acceptedOptionLike++
+									}
+									for _, f := range finds {
+										f := f
+										r.Violate(c36key(c, f),
+											fmt.Sprintf("URL %q (presented as %s) is accepted; %s (%s) runs %q where argument %d (%q, carrying the %s) is an %s", c.raw(), c.Source, f.Tool, c.Op, f.Argv, f.Index, f.Argv[f.Index], f.Component, f.Role),
+											c, func() bool {
+												e.memoise = false
+												defer func() { e.memoise = true }()
+												again, _, _ := e.c36check(c, false)
+												return len(again) > 0
+											})
+									}
 								}
 							}
 						}
@@ -581,7 +679,8 @@ func TestC36(t *testing.T) {
 	}
 	r.Set("option_like_cases_rejected_before_any_command", rejectedOptionLike)
 	r.Set("option_like_cases_executed", acceptedOptionLike)
-	r.Sample(c36case{"text", "ssh", "sync", "Qu", "-oProxyCommand=Qh", "22", "connect"})
-	r.Sample(c36case{"message", "docker", "fwd", "-Qu", "Q-h", "", "copy"})
-	r.Sample(c36case{"text", "ssh", "sync", "", "-", "", "connect"})
+	r.Set("distinct_transport_calls_executed", len(e.memo))
+	r.Sample(c36case{"text", "ssh", "sync", "Qu", "-oProxyCommand=Qh", "22", "connect", "posix"})
+	r.Sample(c36case{"message", "docker", "fwd", "Qu", "./-Qh", "", "copy", "windows"})
+	r.Sample(c36case{"text", "docker", "fwd", "", "a/../-Qh", "", "copy", "posix"})
 }
